@@ -387,11 +387,44 @@ def stage_trace(ctx, st):
         report(ctx, info, st, module, st["invariants"])
 
 
+def spec_hash(ctx, module, cfgname):
+    """Hash of a module, everything it EXTENDS / INSTANCEs (transitively, within spec/) and the cfg."""
+    import hashlib
+    seen, todo = [], [module]
+    while todo:
+        m = todo.pop()
+        p = os.path.join(ctx.spec, m + ".tla")
+        if m in seen or not os.path.exists(p):
+            continue
+        seen.append(m)
+        txt = open(p).read()
+        for line in re.findall(r"^\s*EXTENDS\s+(.*)$", txt, flags=re.M):
+            todo += [x.strip() for x in line.split(",")]
+        todo += re.findall(r"INSTANCE\s+(\w+)", txt)
+    h = hashlib.sha256()
+    for m in sorted(seen):
+        h.update(m.encode() + b"\0" + open(os.path.join(ctx.spec, m + ".tla"), "rb").read())
+    h.update(open(os.path.join(ctx.spec, cfgname), "rb").read())
+    return h.hexdigest()[:24]
+
+
 def stage_mc(ctx, st):
-    """Model-check a configuration of the specification itself."""
+    """Model-check a configuration of the specification itself.  The result depends on spec/ only
+    (never on /repo); successful runs are cached under /verif/.cache keyed by the content of the
+    module, its dependencies and the cfg, and evidence marks cached runs as such."""
     cfgname = st["cfg"] if ctx.tier == "quick" or "cfg_thorough" not in st else st["cfg_thorough"]
     with open(os.path.join(ctx.spec, cfgname)) as f:
         cfg = f.read()
+    cacheable = not st.get("nocache") and "Emit = TRUE" not in cfg and not os.environ.get("VERIF_NOCACHE")
+    cpath = os.path.join(ctx.root, ".cache", "mc-%s-%s.json" % (cfgname.replace(".cfg", ""), spec_hash(ctx, st["module"], cfgname)))
+    if cacheable and os.path.exists(cpath):
+        with open(cpath) as f:
+            c = json.load(f)
+        ctx.mc_runs.append(dict(c, cached=True, note="model run cached (it depends on spec/ only)"))
+        ctx.states += c["states"]
+        ctx.transitions += c["transitions"]
+        ctx.log("MC %s/%s: %d distinct states, %d generated, ok (cached model run)" % (st["module"], cfgname, c["states"], c["transitions"]))
+        return {"ok": True, "distinct": c["states"], "generated": c["transitions"], "out": "", "wall": c["wall_s"]}
     extra = list(st.get("extra", []))
     r = tlc(ctx, st["module"], cfg, "mc-" + st["name"], workers=st.get("workers", 16), heap=st.get("heap", "8g"),
             timeout=st.get("timeout", 1200), extra=extra)
@@ -405,6 +438,12 @@ def stage_mc(ctx, st):
         # a counterexample that exists only in the model is never a violation of the code
         tail = "\n".join(r["out"].splitlines()[-60:])
         raise Inconclusive("model checking of %s did not succeed:\n%s" % (cfgname, tail))
+    if cacheable:
+        os.makedirs(os.path.dirname(cpath), exist_ok=True)
+        tmp = cpath + ".tmp%d" % os.getpid()
+        with open(tmp, "w") as f:
+            json.dump(ctx.mc_runs[-1], f)
+        os.replace(tmp, cpath)
     return r
 
 
@@ -436,12 +475,7 @@ def emission(ctx, st):
     on /repo), so the TLC run is cached under /verif/.cache, keyed by the content of spec/ and the cfg."""
     import hashlib
     cfgname = st["cfg"] if ctx.tier == "quick" or "cfg_thorough" not in st else st["cfg_thorough"]
-    h = hashlib.sha256()
-    for f in sorted(os.listdir(ctx.spec)):
-        if f.endswith(".tla") or f == cfgname:
-            with open(os.path.join(ctx.spec, f), "rb") as fh:
-                h.update(f.encode() + b"\0" + fh.read())
-    key = h.hexdigest()[:24]
+    key = spec_hash(ctx, st["module"], cfgname)
     cdir = os.path.join(ctx.root, ".cache")
     cpath = os.path.join(cdir, "emission-%s-%s.json" % (cfgname.replace(".cfg", ""), key))
     if os.path.exists(cpath) and not os.environ.get("VERIF_NOCACHE"):
@@ -528,7 +562,7 @@ def stage_edges(ctx, st):
             if rs:
                 f.write(json.dumps({"op": "Reset", "numTable": "general", "timeTable": "general"}) + "\n")
                 for e in hist:
-                    f.write(json.dumps(dict(e, audit=False)) + "\n")
+                    f.write(json.dumps(dict(e, audit=True)) + "\n")
                 for e in rs:
                     f.write(json.dumps(dict(e, audit=False)) + "\n")
                 nh += 1
@@ -536,7 +570,7 @@ def stage_edges(ctx, st):
             for w in ws:
                 f.write(json.dumps({"op": "Reset", "numTable": "general", "timeTable": "general"}) + "\n")
                 for e in hist:
-                    f.write(json.dumps(dict(e, audit=False)) + "\n")
+                    f.write(json.dumps(dict(e, audit=True)) + "\n")
                 f.write(json.dumps(dict(w, audit=True)) + "\n")
                 nh += 1
                 ne += len(hist) + 1
@@ -618,6 +652,14 @@ def stage_aux(ctx, st):
     found = validate_traces(ctx, "TraceAux", st.get("invariants", ["InvAux"]), traces, st["name"], chunk=st.get("chunk", 400), par=12,
                             heap=st.get("heap", "6g"))
     ctx.stage_log.append({"stage": st["name"], "aux": st["aux"], "lines": len(all_lines), "rejections": len(found)})
+    if st.get("advisory"):
+        # model-drift measurement: how often the planner *model* disagrees with the real planner.
+        # A disagreement is not a verdict about the code (another valid plan is allowed).
+        ctx.extra["model_drift"] = {"stage": st["name"], "lines": len(all_lines), "disagreements_found": len(found),
+                                    "first": (json.loads(found[0]["trace"][0]).get("crit") if found else None)}
+        if found:
+            ctx.log("  advisory: planner model and real planner disagree on %d sampled line(s)" % len(found))
+        return
     for info in found:
         if len(ctx.violations) >= MAX_REPORTS:
             ctx.extra["further_rejections_not_reported"] = ctx.extra.get("further_rejections_not_reported", 0) + 1
